@@ -2301,5 +2301,11 @@ impl<S, T> Drop for Client<S, T> {
         if self.connected_to_server && self.last_server_stats.is_some() {
             self.last_server_stats.as_ref().unwrap().idle();
         }
+
+        // However the client left - a panic in its task unwinds past every other place
+        // that does this - it is not connected any more.
+        if !self.cancel_mode {
+            self.stats.disconnect();
+        }
     }
 }
